@@ -242,6 +242,8 @@ class Engine:
     def __init__(self, registry: Registry, contracts, ghosts=None, timeout_ms=20000, seed=0):
         self.reg = registry
         self.contracts = contracts          # qualname -> Contract
+        self.force_inline_all = False       # lemma mode: execute the bodies of the listed callees instead of their contracts
+        self.inline_for_rt1 = set()
         self.elem_defs = {}                 # id of a comprehension's sequence term -> (term, index const, element term, type)
         self.ghosts = ghosts or {}
         self.obligations = []
